@@ -177,6 +177,24 @@ func observeTrie(k *K, t *trie.Trie, m *setModel, probes []string, what string) 
 		}
 	}
 	k.Count("has_observations", int64(len(probes)))
+	// Every other observation is preceded by a ForEach that the consumer stops
+	// after one or two members: what an abandoned walk leaves behind in the trie
+	// must not show in the complete walk that follows, nor in later updates.
+	if len(probes)%2 == 0 && len(m.m) > 0 {
+		stopAfter, got := 1+len(probes)%4/2, 0
+		t.ForEach(func(b []byte) bool {
+			got++
+			if !m.m[string(b)] {
+				got = -1 << 20
+			}
+			return got < stopAfter
+		})
+		if got < 0 || got > stopAfter {
+			k.Failf("foreach", "%s: a ForEach stopped after %d members reported a non-member or went on after the stop", what, stopAfter)
+			return false
+		}
+		k.Count("foreach_stopped_early", 1)
+	}
 	seen := map[string]int{}
 	n := 0
 	t.ForEach(func(b []byte) bool {
